@@ -16,7 +16,7 @@ class C01(Prop):
     WEIGHTS = {"page": 4, "pages": 3, "links": 3, "batch": 3, "again": 3, "create": 1, "delete": 1, "addprefix": 1,
                "rmprefix": 1, "move": 1, "rule": 1, "unrule": 1, "reopen": 1}
     LONG_BIAS = 0.3
-    QUICK = (14, 20)
+    QUICK = (40, 20)
     THOROUGH = (220, 40)
     ASSUMPTIONS = ["ledger of submitted pages is the ground truth (built from request inputs only)",
                    "known finding K2 (add_pages ignores crawled=False) is tolerated exactly on pages whose only "
